@@ -202,6 +202,9 @@ def main(tier):
     from .c18 import from_f64_ok
     okf, why, _ = from_f64_ok(F, m)
     run.ob(okf, "number-from", "C09 premise: Number::from(f64) keeps the numeric value (Integer only for integral doubles in [-2^63, 2^63))", "eval_number::number::Number::from(f64)", why)
+    # premise: integer literals enter the tree exactly (Integer when they fit i64)  (C19)
+    from ..scanners import check_literals
+    check_literals(run, m, "C09 premise (literals):")
     # cast-guard rule over every arm
     ncast = 0
     for ctor, a in m.tb.eval_arms().items():
